@@ -15,7 +15,7 @@ import traceback
 import z3
 
 from ..common import Obligation, Outcome, DISCHARGED, REFUTED, UNDECIDED, FAULT, find_def, find_property_setter
-from .engine import (Ctx, World, T, Rec, PyList, SeqV, FloatV, Unsupp, PathEnd, VCFailed, VCUnknown, RaiseExc, ReturnExc, fresh,
+from .engine import (set_budget, Ctx, World, T, Rec, PyList, SeqV, FloatV, Unsupp, PathEnd, VCFailed, VCUnknown, RaiseExc, ReturnExc, fresh,
                      concretize)
 from .interp import Interp, NS
 from . import spec as S
@@ -128,9 +128,9 @@ def verify_case(fc: FnContract, case: Case, timeout_ms=10000, budget_s=240):
                     # vacuity guard (with quantified theory axioms a model is rarely produced: short budget, first path only --
                     # an inconsistent precondition is refuted quickly or not at all)
                     if ctx.qf_solver is not None:
-                        ctx.solver.set("timeout", 2500)
+                        set_budget(ctx.solver, 2500)
                     vac = ctx._check()
-                    ctx.solver.set("timeout", timeout_ms)
+                    set_budget(ctx.solver, timeout_ms)
                     if vac == z3.unsat:
                         return dict(status=FAULT, detail="precondition is unsatisfiable (vacuous contract)", stats=stats)
                 outcome, value = "return", None
@@ -180,10 +180,10 @@ def verify_case(fc: FnContract, case: Case, timeout_ms=10000, budget_s=240):
                         ctx.prove(S.to_z3(S.Not(case.must_return(ns_old))), f"must-return-but-raised:{value}")
                 if not stats.get("live"):
                     # cover check: at least one completed path must not be refutably infeasible (else every VC was vacuous)
-                    ctx.solver.set("timeout", 1500)
+                    set_budget(ctx.solver, 1500)
                     if ctx._check() != z3.unsat:
                         stats["live"] = 1
-                    ctx.solver.set("timeout", timeout_ms)
+                    set_budget(ctx.solver, timeout_ms)
             except PathEnd:
                 stats["infeasible"] += 1
         except VCFailed as f:
@@ -433,7 +433,7 @@ def lemma(pid, name, vars_, goal, *, assumptions=(), timeout_ms=20000, sample=No
     def fn():
         from .engine import fresh_check
         s = z3.Solver()
-        s.set("timeout", timeout_ms)
+        set_budget(s, timeout_ms)
         for a in assumptions:
             s.add(a)
         s.add(z3.Not(goal))
